@@ -235,6 +235,23 @@ def run_script(case, variant):
     return res
 
 
+def _same_up_to_nan(a, b):
+    """Bytewise different results are still the same run when they differ only in the sign / payload bits of
+    NaN entries (a diverging Euler run overflows to inf - inf; which NaN the hardware instruction sequence
+    leaves is the compiler's choice, not a memory-safety matter).  Every non-NaN entry must agree bit for bit."""
+    import numpy as np
+    if a[2] != b[2] or len(a[0]) != len(b[0]) or len(a[1]) != len(b[1]):
+        return False
+    for x, y in ((a[0], b[0]), (a[1], b[1])):
+        u, v = np.frombuffer(x), np.frombuffer(y)
+        nu, nv = np.isnan(u), np.isnan(v)
+        if not np.array_equal(nu, nv):
+            return False
+        if not np.array_equal(u[~nu].view(np.uint64), v[~nv].view(np.uint64)):
+            return False
+    return True
+
+
 def check_shape(case):
     out = []
     try:
@@ -242,7 +259,7 @@ def check_shape(case):
         a = run_script(case, "san")
         lc.announce("shape-case plain " + case["engine"] + " " + case["space"])
         b = run_script(case, "plain")
-        if a != b:
+        if a != b and not _same_up_to_nan(a, b):
             import numpy as np
             out.append(("C11:shape:%s:sanitized-and-plain-builds-differ" % case["engine"],
                         "san: n=%d t=%r | plain: n=%d t=%r" % (a[2], np.frombuffer(a[0]).tolist()[:6], b[2], np.frombuffer(b[0]).tolist()[:6])))
